@@ -102,6 +102,46 @@ Definition spec_exit (tbl : list lib_entry) (t : spec_target) : N :=
 Definition limit_specified (o : cb_options) : bool :=
   match o_limit o with Some 0 => false | _ => true end.
 
+(* ------------------------------------------------------------------ block atomicity on the real output
+   For directory / list targets the stdout *sequence* must be an interleaving of whole blocks, every
+   file's blocks in order (Properties/C18.v, C18_interleaving).  Decided greedily: at every position
+   some file's next block is a prefix of what remains (blocks start with a rule line or a count line,
+   which name the file, so the choice is unambiguous up to identical duplicates). *)
+Fixpoint strip_prefix (b l : list bytes) : option (list bytes) :=
+  match b with
+  | [] => Some l
+  | x :: b' => match l with
+               | y :: l' => if bytes_eqb x y then strip_prefix b' l' else None
+               | [] => None
+               end
+  end.
+
+Fixpoint pop_block (fs : list (list (list bytes))) (out : list bytes) : option (list (list (list bytes)) * list bytes) :=
+  match fs with
+  | [] => None
+  | bl :: rest =>
+      match bl with
+      | b :: bs =>
+          match strip_prefix b out with
+          | Some out' => Some (bs :: rest, out')
+          | None => match pop_block rest out with Some (rest', out') => Some (bl :: rest', out') | None => None end
+          end
+      | [] => match pop_block rest out with Some (rest', out') => Some (rest', out') | None => None end
+      end
+  end.
+
+Fixpoint interleaved (fuel : nat) (fs : list (list (list bytes))) (out : list bytes) : bool :=
+  match out with
+  | [] => forallb (fun bl => match bl with [] => true | _ => false end) fs
+  | _ => match fuel with
+         | O => false
+         | S k => match pop_block fs out with Some (fs', out') => interleaved k fs' out' | None => false end
+         end
+  end.
+
+Definition stdout_blocks (o : cb_options) (lib : libfn) (p : bytes) : list (list bytes) :=
+  filter (fun b => match b with [] => false | _ => true end) (map stdout_of (worker_blocks o lib p)).
+
 Definition C18_case (s : sc_options) (o : cb_options) (io : in_options) (used : scan_params)
            (ds : list decl) (t : target) (st : spec_target) (tbl : list lib_entry)
            (out err : list bytes) (exit : N) : bool * bool * N :=
@@ -109,7 +149,9 @@ Definition C18_case (s : sc_options) (o : cb_options) (io : in_options) (used : 
   let exact := match t with TFile _ => true | _ => false end in
   let corr :=
       params_eqb used (params_of_flags s o)
-      && (if exact then list_eqb bytes_eqb out (stdout_of lines) else mset_eqb bytes_eqb out (stdout_of lines))
+      && (if exact then list_eqb bytes_eqb out (stdout_of lines)
+          else mset_eqb bytes_eqb out (stdout_of lines)
+               && interleaved (length out) (map (stdout_blocks o (lib_of tbl)) (sent_files (producer io t))) out)
       && mset_eqb bytes_eqb err (stderr_of lines)
       && (exit =? code) in
   let spec :=
@@ -170,3 +212,23 @@ Definition C18_probe_case (s : sc_options) (o : cb_options) (io : in_options) (u
       && match i_threads io with Some k => held_ok (N.max 1 k) (nlen entries) held | None => true end
       && (exit =? 0) in
   (corr, spec, 0).
+
+(* ------------------------------------------------------------------ how the rules were compiled
+   The harness compiled (namespace, file) pairs and external symbols chosen by the generator; the
+   model must derive exactly those from the command-line arguments. *)
+Definition opt_bytes_eqb (a b : option bytes) : bool := opt_eqb bytes_eqb a b.
+
+Definition C18_compile_args_ok (existing : list bytes) (rule_args : list bytes) (compiled : list (option bytes * bytes))
+           (define_args : list bytes) (defined : list (bytes * ext_value)) : bool :=
+  list_eqb (fun a b => opt_bytes_eqb (fst a) (fst b) && bytes_eqb (snd a) (snd b))
+           (map (resolve_rules_arg (fun p => mem_bytes p existing)) rule_args) compiled
+  && list_eqb (opt_eqb (fun a b : bytes * ext_value => bytes_eqb (fst a) (fst b) && ext_value_eqb (snd a) (snd b)))
+              (map parse_define define_args) (map Some defined).
+
+(* a case = an invocation + the check that its arguments were resolved as the harness compiled them *)
+Definition with_args (args_ok : bool) (v : bool * bool * N) : bool * bool * N :=
+  let '(c, s, k) := v in (c && args_ok, s, k).
+
+(* rules that do not compile: nothing is scanned, nothing on stdout, exit status 1 *)
+Definition C18_compile_fail_case (out : list bytes) (exit : N) : bool * bool * N :=
+  let ok := match out with [] => true | _ => false end && (exit =? 1) in (ok, ok, 0).
